@@ -310,8 +310,13 @@ def _real_agrees(what, stub, real):
     (soh, sow, _, sexc), (roh, row, _, rexc) = stub, real
 
     if (sexc is None) != (rexc is None) or (soh, sow) != (roh, row):
-        raise AssertionError(f'harness: cv2.resize shim and real cv2.resize disagree for {what}: '
-            f'stub {(soh, sow, sexc)!r} real {(roh, row, rexc)!r}')
+        # The shim returns exactly the size it is asked for, so with a pure size computation both runs must agree.  They run on
+        # the same input with the same parameters; the shim run reuses a transform record that has already been applied to
+        # other images, the real run uses a fresh one.  A difference therefore means the result depends on earlier images.
+        return (f'{what}: a transform record that was already applied to other images gives {(sow, soh, sexc)!r} (WxH), a fresh '
+                f'record with the same parameters gives {(row, roh, rexc)!r}: the result depends on what was transformed before')
+
+    return None
 
 
 def _util_size_item(item):
@@ -350,7 +355,9 @@ def _util_size_item(item):
                     for interp in INTERPS[1:]:
                         xfi = _parse_xforms([f'{action} {W}{form}{H}{interp}'])[0]
 
-                        _real_agrees(f'util {action} {W}{form}{H}{interp} on {w}x{h}', stub, _util_case(xfi, rframe, True))
+                        if (txt := _real_agrees(f'util {action} {W}{form}{H}{interp} on {w}x{h}', stub, _util_case(xfi, rframe, True))):
+                            case = dict(part='util-size', action=action, form=form, interp='', h=h, w=w, H=H, W=W)
+                            acc.add(f'C17/util-{action}/result-depends-on-earlier-images', txt, case, _case_key(case))
 
                         acc.real += 1
 
@@ -401,8 +408,9 @@ def _reader_size_item(item):
                     for interp in INTERPS[1:]:
                         r = _reader_run(opt, f'{W}{form}{H}{interp}', [np.zeros((h, w), np.uint8)], True)[0]
 
-                        _real_agrees(f'reader {opt} {W}{form}{H}{interp} on {w}x{h}',
-                            (oh, ow, None, exc), (None, None, None, r) if isinstance(r, Exception) else (*r, None, None))
+                        if (txt := _real_agrees(f'reader {opt} {W}{form}{H}{interp} on {w}x{h}',
+                                (oh, ow, None, exc), (None, None, None, r) if isinstance(r, Exception) else (*r, None, None))):
+                            raise AssertionError('harness: cv2.resize shim and real cv2.resize disagree in the reader: ' + txt)
 
                         acc.real += 1
 
